@@ -2,9 +2,11 @@
     toom_3.rs transcribed step by step: the scratch buffers t1, t2, a_eval, b_eval, c_eval, every
     in-place addition into a slice of c with its deferred carry (carry_c0 .. carry_c3, carry), the
     evaluation at 2 by add_mul_word, at 1 / -1 through a02 / b02 and sub_in_place_with_sign, the
-    debug_assert_zero!s as panics.  Only the two calls into other modules -
-    div::div_by_word_in_place(t1, 6) and shift::shr_in_place(t2, 1) - are taken by value (they
-    belong to C02 / C09); their remainders are asserted to be 0 as in the code.  Definitions only. *)
+    debug_assert_zero!s as panics.  The two calls into other modules -
+    div::div_by_word_in_place(t1, 6) and shift::shr_in_place(t2, 1) - are parameters [div6] / [shr1] of
+    [toom3g_same_len] (word list -> (quotient words, remainder)); their remainders are asserted to be 0 as
+    in the code.  [toom3w_same_len] instantiates them by value, Int/RingMulW.v by the word-level models of
+    div/mod.rs and shift.rs (Int/DivWordModel.v).  Definitions only. *)
 From Dashu Require Import Base.Prelude Base.Words Int.RingAdd Int.RingMul.
 Open Scope Z_scope.
 
@@ -36,7 +38,7 @@ Definition eval02 (x0 x2 : list Z) : list Z :=
 Definition eval1 (x02 x1 : list Z) (n3 : nat) : list Z :=
   let '(lo, cr) := add_same_len_in_place w (firstn n3 x02) x1 in lo ++ [nth n3 x02 0 + b2z cr].
 
-Definition toom3w_same_len (rec_same : mulfn) : mulfn := fun c s a b =>
+Definition toom3g_same_len (div6 shr1 : list Z -> list Z * Z) (rec_same : mulfn) : mulfn := fun c s a b =>
   let n := length a in
   let n3 := ((n + 2) / 3)%nat in
   let n3s := (n - 2 * n3)%nat in
@@ -88,9 +90,9 @@ Definition toom3w_same_len (rec_same : mulfn) : mulfn := fun c s a b =>
                   end in
   if negb (k =? 0) then Panic Undocumented else
   (* t1 /= 6, t2 >>= 1: assert_eq!(t1_rem, 0); assert_eq!(t2_rem, 0) *)
-  if negb (value w t1 mod 6 =? 0) || negb (value w t2 mod 2 =? 0) then Panic Undocumented else
-  let t1 := to_words w m (value w t1 / 6) in
-  let t2 := to_words w m (value w t2 / 2) in
+  let '(t1, t1_rem) := div6 t1 in
+  let '(t2, t2_rem) := shr1 t2 in
+  if negb (t1_rem =? 0) || negb (t2_rem =? 0) then Panic Undocumented else
   (* interpolation into c *)
   let '(x, k) := add_signed_same_len_in_place w (slice n3 m c) (sign_neg s) t1 in
   let c := splice n3 x c in
@@ -116,6 +118,12 @@ Definition toom3w_same_len (rec_same : mulfn) : mulfn := fun c s a b =>
   let '(x, k) := add_signed_word_in_place w (slice (5 * n3 + 2) (length c - (5 * n3 + 2)) c) carry_c3 in
   let c := splice (5 * n3 + 2) x c in
   Ok (c, carry + k)))))).
+
+(** the two foreign calls by their value: quotient in the same number of words, remainder *)
+Definition div_small_by_value (k : Z) (t : list Z) : list Z * Z :=
+  (to_words w (length t) (value w t / k), value w t mod k).
+
+Definition toom3w_same_len : mulfn -> mulfn := toom3g_same_len (div_small_by_value 6) (div_small_by_value 2).
 
 End ToomW.
 
